@@ -49,7 +49,7 @@ fn name_text(v: &Value) -> String {
     v.as_array().unwrap().iter().map(|l| String::from_utf8(json_bytes(l)).unwrap()).collect::<Vec<_>>().join(".")
 }
 
-fn instance_of(v: &Value) -> InstanceInformation {
+pub fn instance_of(v: &Value) -> InstanceInformation {
     let mut i = InstanceInformation::new(text(&v["name"]));
     for ip in v["ips"].as_array().unwrap() {
         i = i.with_ip_address(ip_from(ip));
@@ -64,7 +64,7 @@ fn instance_of(v: &Value) -> InstanceInformation {
     i
 }
 
-fn instance_json(i: &InstanceInformation) -> Value {
+pub fn instance_json(i: &InstanceInformation) -> Value {
     let mut ips: Vec<&IpAddr> = i.ip_addresses.iter().collect();
     ips.sort();
     let mut ports: Vec<&u16> = i.ports.iter().collect();
@@ -542,20 +542,43 @@ pub fn net_event(a: &Args, grams: &[(String, Vec<u8>)]) -> Value {
     // the one-shot resolver (sync flavour) keeps resolving the responder's name while the hostile datagrams fly;
     // responses carrying its query id (0) reach its parsing code
     let resolver_name = rname.clone();
+    let nobody_name = format!("nobody{unique}.local");
+    let nobody_service = format!("_nobody{unique}._tcp.local");
+    let (n2, s2) = (nobody_name.clone(), nobody_service.clone());
+    let stop = Arc::new(std::sync::atomic::AtomicBool::new(false));
+    let stop2 = stop.clone();
     let resolver_thread = std::thread::spawn(move || {
         crate::util::install_panic_hook();
         let mut outcomes: Vec<Vec<String>> = vec![];
         let r = guarded(|| {
             let mut res = simple_mdns::sync_discovery::OneShotMdnsResolver::new().map_err(|e| e.to_string())?;
-            res.set_query_timeout(Duration::from_millis(700));
+            res.set_query_timeout(Duration::from_millis(300));
             res.set_unicast_response(false);
-            let mut v = vec![];
-            for _ in 0..4 {
-                v.push(match res.query_service_address(&resolver_name) {
-                    Ok(Some(ip)) => vec!["some".to_string(), ip.to_string()],
+            let mut v: Vec<Vec<String>> = vec![];
+            let mut rounds = 0;
+            // keep resolving until the hostile traffic is over: a name the responder answers at once, a name
+            // nobody answers (the resolver reads everything that arrives until its timeout), and the
+            // address-and-port resolution of a service nobody answers
+            while !stop2.load(std::sync::atomic::Ordering::SeqCst) && rounds < 200 {
+                rounds += 1;
+                for name in [&resolver_name, &n2] {
+                    let o = match res.query_service_address(name) {
+                        Ok(Some(ip)) => vec!["some".to_string(), ip.to_string()],
+                        Ok(None) => vec!["none".to_string()],
+                        Err(e) => vec!["err".to_string(), e.to_string()],
+                    };
+                    if !v.contains(&o) {
+                        v.push(o);
+                    }
+                }
+                let o = match res.query_service_address_and_port(&s2) {
+                    Ok(Some(a)) => vec!["some".to_string(), a.to_string()],
                     Ok(None) => vec!["none".to_string()],
                     Err(e) => vec!["err".to_string(), e.to_string()],
-                });
+                };
+                if !v.contains(&o) {
+                    v.push(o);
+                }
             }
             Ok::<Vec<Vec<String>>, String>(v)
         });
@@ -566,6 +589,37 @@ pub fn net_event(a: &Args, grams: &[(String, Vec<u8>)]) -> Value {
         }
         outcomes
     });
+    // responses aimed at the resolver: id 0, answers (and additionals) owned by the names it is asking for,
+    // with empty, truncated and mistyped RDATA
+    let mut targeted: Vec<Vec<u8>> = vec![];
+    for owner in [&rname, &nobody_name, &nobody_service] {
+        let on = Name::new_unchecked(owner).into_owned();
+        let mut wire_name = vec![];
+        for l in on.get_labels() {
+            let t = l.to_string();
+            wire_name.push(t.len() as u8);
+            wire_name.extend(t.as_bytes());
+        }
+        wire_name.push(0);
+        for ty in [1u16, 28, 33, 16, 12, 5] {
+            for rd in [&[][..], &[0, 0, 0][..], &[1, 2, 3, 4][..], &[0, 0, 0, 0, 0, 80, 0][..]] {
+                for (an, ar) in [(1u16, 0u16), (1, 1), (0, 1)] {
+                    let mut d = vec![0, 0, 0x84, 0, 0, 0];
+                    d.extend(an.to_be_bytes());
+                    d.extend([0, 0]);
+                    d.extend(ar.to_be_bytes());
+                    for _ in 0..(an + ar) {
+                        d.extend(&wire_name);
+                        d.extend(ty.to_be_bytes());
+                        d.extend([0, 1, 0, 0, 0, 10]);
+                        d.extend((rd.len() as u16).to_be_bytes());
+                        d.extend(rd);
+                    }
+                    targeted.push(d);
+                }
+            }
+        }
+    }
     let mut sent = 0u64;
     for (i, (_, d)) in grams.iter().enumerate() {
         if d.len() <= 9000 && tx.send_to(d, target).is_ok() {
@@ -586,7 +640,18 @@ pub fn net_event(a: &Args, grams: &[(String, Vec<u8>)]) -> Value {
             std::thread::sleep(Duration::from_millis(20));
         }
     }
-    std::thread::sleep(Duration::from_millis(500));
+    for round in 0..6 {
+        for (i, d) in targeted.iter().enumerate() {
+            if tx.send_to(d, target).is_ok() {
+                sent += 1;
+            }
+            if i % 40 == 39 {
+                std::thread::sleep(Duration::from_millis(15));
+            }
+        }
+        std::thread::sleep(Duration::from_millis(if round == 5 { 400 } else { 60 }));
+    }
+    stop.store(true, std::sync::atomic::Ordering::SeqCst);
     let resolver_outcomes = resolver_thread.join().unwrap_or_else(|_| vec![vec!["panic".to_string(), "thread".to_string()]]);
     let after_responder = probe(&rname, simple_dns::TYPE::A.into(), 0x7703, 6);
     let after_discovery = probe(&sname, simple_dns::QTYPE::ANY, 0x7704, 6);
